@@ -298,3 +298,22 @@ def check_targets_reconciled_after_resume(ctx, consequence: str):
         ctx.check(ok, sv.fq, "targets are reconciled after boot and, on a resumed database, after the startup rescans; before the first tick", consequence, "boot -> resume_from_db -> reconcile_targets -> run", where=ctx.where_of(sv))
     if n == 0:
         raise AnalysisError("director.serve no longer reconciles targets")
+
+
+def check_rollback_possible(ctx, consequence: str):
+    """No connection setting takes away the rollback journal of any schema (main or temp): a rejected request is
+    undone by ROLLBACK, which needs a journal for every table the request may have written, the trigger-maintained
+    temporary mirrors included."""
+    import re
+
+    n = 0
+    for mod in ctx.prog.mods.values():
+        for node in ast.walk(mod.tree):
+            if isinstance(node, ast.Constant) and isinstance(node.value, str):
+                for m in re.finditer(r"PRAGMA\s+(?:(\w+)\s*\.\s*)?journal_mode\s*=\s*(\w+)", node.value, re.I):
+                    n += 1
+                    schema, mode = (m.group(1) or "main"), m.group(2).upper()
+                    ctx.check(mode in ("WAL", "DELETE", "TRUNCATE", "PERSIST"), f"{mod.name}", f"PRAGMA {schema}.journal_mode = {mode}",
+                              f"journal mode {mode} for schema {schema}: ROLLBACK cannot undo writes there: {consequence}", "a mode that keeps a rollback journal", where=f"stepup/core/{mod.path.name}:{node.lineno}")
+    if n == 0:
+        raise AnalysisError("no journal_mode pragma found (connection settings moved)")
